@@ -46,6 +46,11 @@ class FieldReader:
     def get(self, size, field, mask=None):
         if isinstance(size, (int, int)):
             value = self.src.read(size)
+            if len(value) != size:
+                # the source is truncated. Without this check a loop that is
+                # controlled by a count field would carry on reading nothing
+                raise ValueError(
+                    f'{self.name}: expected {size} bytes for {field}, found {len(value)}')
             if self.log and self.log.isEnabledFor(logging.DEBUG):
                 self.log.debug('%s: read %s size=%d pos=%d value=0x%s', self.name, field,
                                size, self.src.tell(), value.encode('hex'))
